@@ -1128,4 +1128,23 @@ pub(crate) const MAX_PUBKEY_SIZE: usize = 97;""")]),
     }
     let _ = &seq_buf;
     new_nonce""")]),
+    # ------------------------------------------------------------------ the length guard spelled out as a comparison
+    dict(name='c12-explicit-guard-lt', expect=[('C12', 'R12.2')],
+         note='explicit comparison guard that lets over-long X25519 public keys through (then panics in copy_from_slice)',
+         edits=[(X25519, '        // Pubkeys must be 32 bytes\n        enforce_equal_len(Self::OutputSize::to_usize(), encoded.len())?;\n\n        // Copy to a fixed-size array', '        // Pubkeys must be 32 bytes\n        if encoded.len() < 32 {\n            return Err(HpkeError::IncorrectInputLength(32, encoded.len()));\n        }\n        let encoded = &encoded[..32];\n\n        // Copy to a fixed-size array')]),
+    dict(name='c12-explicit-guard-wrong-n', expect=[('C12', 'R12.2')],
+         note='explicit comparison guard against 33 instead of Npk = 32',
+         edits=[(X25519, '        // Pubkeys must be 32 bytes\n        enforce_equal_len(Self::OutputSize::to_usize(), encoded.len())?;\n\n        // Copy to a fixed-size array', '        // Pubkeys must be 32 bytes\n        if encoded.len() != 33 {\n            return Err(HpkeError::IncorrectInputLength(33, encoded.len()));\n        }\n        let encoded = &encoded[..32];\n\n        // Copy to a fixed-size array')]),
+    dict(name='c12-explicit-guard-payload-swapped', expect=[('C12', 'R12.2')],
+         note='explicit comparison guard whose error carries (given, expected)',
+         edits=[(X25519, '        // Pubkeys must be 32 bytes\n        enforce_equal_len(Self::OutputSize::to_usize(), encoded.len())?;\n\n        // Copy to a fixed-size array', '        // Pubkeys must be 32 bytes\n        if encoded.len() != 32 {\n            return Err(HpkeError::IncorrectInputLength(encoded.len(), 32));\n        }\n\n        // Copy to a fixed-size array')]),
+    dict(name='c12-explicit-guard-other-error', expect=[('C12', 'R12.2')],
+         note='explicit comparison guard that reports ValidationError for a wrong length',
+         edits=[(X25519, '        // Pubkeys must be 32 bytes\n        enforce_equal_len(Self::OutputSize::to_usize(), encoded.len())?;\n\n        // Copy to a fixed-size array', '        // Pubkeys must be 32 bytes\n        if encoded.len() != 32 {\n            return Err(HpkeError::ValidationError);\n        }\n\n        // Copy to a fixed-size array')]),
+    dict(name='c09-explicit-guard-compressed-len', expect=[('C09', 'R09.1')],
+         note='explicit comparison guard on NIST public keys that also admits len == 33 (compressed P-256 points)',
+         edits=[(NIST, '                    // representation.\n                    enforce_equal_len(Self::OutputSize::to_usize(), encoded.len())?;\n', '                    // representation.\n                    let want = Self::OutputSize::to_usize();\n                    if encoded.len() != want && encoded.len() != 33 {\n                        return Err(HpkeError::IncorrectInputLength(want, encoded.len()));\n                    }\n')]),
+    dict(name='c09-explicit-guard-inverted', expect=[('C09', 'R09.1')],
+         note='explicit comparison guard with == for != : every correctly sized NIST public key is rejected, everything else parsed',
+         edits=[(NIST, '                    // representation.\n                    enforce_equal_len(Self::OutputSize::to_usize(), encoded.len())?;\n', '                    // representation.\n                    if encoded.len() == Self::OutputSize::to_usize() {\n                        return Err(HpkeError::IncorrectInputLength(Self::OutputSize::to_usize(), encoded.len()));\n                    }\n')]),
 ]
